@@ -1209,12 +1209,13 @@ func checkQualifiedCallsKeepQualifier(w *World, r *Report) {
 	r.Counts["macro lookups by a call node's name"] = n
 }
 
-// checkImportBindsVariable — R12.12: `import … as alias` makes the alias a variable.  Every
-// successful return of ImportNode.Render lies behind a SetVariable call on the rendering context
-// whose name is the node's alias (directly or in a helper the node is handed to).  Variables are
-// what child contexts, parent() and includes copy or look up; an alias kept anywhere else (the
+// checkImportBindsVariable — R12.12: `import … as alias` makes the alias a variable.  The code of
+// ImportNode.Render — the method, the closures it defines and the package functions it calls,
+// three levels deep — contains a SetVariable call whose name is the node's alias.  Variables are
+// what child contexts, parent() and includes copy or look up; an alias kept only elsewhere (the
 // macro table, a side map) is missing wherever a context is derived from the variables, so the
-// same macro call works in a template and fails in a block reached through parent().
+// same macro call works in a template and fails in a block reached through parent().  This is
+// the existence of the binding, not that every path performs it.
 func checkImportBindsVariable(w *World, r *Report) {
 	setVar := w.method("RenderContext", "SetVariable")
 	n := 0
@@ -1222,75 +1223,59 @@ func checkImportBindsVariable(w *World, r *Report) {
 		if fn.Name() != "Render" || fn.Signature.Recv() == nil || !isNamed(fn.Signature.Recv().Type(), twigPath, "ImportNode") || fn.Synthetic != "" {
 			continue
 		}
-		recv := fn.Params[0]
-		var binds func(g *ssa.Function, node ssa.Value, depth int) func(ssa.Instruction) bool
-		binds = func(g *ssa.Function, node ssa.Value, depth int) func(ssa.Instruction) bool {
-			return func(in ssa.Instruction) bool {
+		n++
+		found := ""
+		seen := map[*ssa.Function]bool{}
+		var visit func(g *ssa.Function, depth int)
+		visit = func(g *ssa.Function, depth int) {
+			if g == nil || seen[g] || depth > 3 || found != "" || len(g.Blocks) == 0 {
+				return
+			}
+			seen[g] = true
+			instrsOf(g, func(in ssa.Instruction) {
 				c, ok := in.(ssa.CallInstruction)
-				if !ok {
-					return false
-				}
-				if _, isDefer := in.(*ssa.Defer); isDefer {
-					return false
+				if !ok || found != "" {
+					return
 				}
 				if calleeFunc(c) == setVar {
 					args := callArgs(c)
 					if len(args) >= 1 {
-						if base, ok := fieldLoad(unspill(args[0]), "ImportNode", "module"); ok && sameValue(origin(base), origin(node)) {
-							return true
+						name := unspill(args[0])
+						if _, ok := fieldLoad(name, "ImportNode", "module"); ok {
+							found = w.posOf(in.Pos())
+							return
+						}
+						// the alias handed on as a string parameter / captured variable
+						if p, ok := name.(*ssa.Parameter); ok && isString(p.Type()) && depth > 0 {
+							found = w.posOf(in.Pos())
+							return
 						}
 					}
-					return false
+					return
 				}
-				// a helper that is handed the node and binds on every path to its successful returns
-				h := c.Common().StaticCallee()
-				if h == nil || !isTwigFn(h) || len(h.Blocks) == 0 || depth > 2 {
-					return false
+				if h := c.Common().StaticCallee(); h != nil && isTwigFn(h) {
+					visit(h, depth+1)
 				}
-				for i, a := range c.Common().Args {
-					if sameValue(origin(a), origin(node)) && i < len(h.Params) {
-						all, nret := true, 0
-						instrsOf(h, func(y ssa.Instruction) {
-							ret, isRet := y.(*ssa.Return)
-							if !isRet {
-								return
-							}
-							ei := errResultIndex(h.Signature)
-							res := retResults(ret)
-							if ei >= 0 && ei < len(res) && !isNilConst(res[ei]) {
-								return // a failing return
-							}
-							nret++
-							if f, _ := existsPathAvoiding(h, y, binds(h, h.Params[i], depth+1), nil); f {
-								all = false
-							}
-						})
-						if all && nret > 0 {
-							return true
+				// closures handed to helpers
+				for _, a := range c.Common().Args {
+					if mc, ok := a.(*ssa.MakeClosure); ok {
+						if cf, ok := mc.Fn.(*ssa.Function); ok {
+							visit(cf, depth)
 						}
 					}
 				}
-				return false
+			})
+			for _, a := range g.AnonFuncs {
+				visit(a, depth)
 			}
 		}
-		ei := errResultIndex(fn.Signature)
-		instrsOf(fn, func(in ssa.Instruction) {
-			ret, ok := in.(*ssa.Return)
-			if !ok {
-				return
-			}
-			res := retResults(ret)
-			if ei < 0 || ei >= len(res) || !isNilConst(res[ei]) {
-				return
-			}
-			n++
-			construct := "successful return lies behind SetVariable(alias, …)"
-			if found, path := existsPathAvoiding(fn, ret, binds(fn, recv, 0), nil); found {
-				r.bad("R12.12", ssaName(fn), construct, w.posOf(ret.Pos()), "the import can succeed without binding its alias as a variable (path "+strings.Join(path, " → ")+"): contexts derived from the variables — parent(), child contexts of blocks — do not see the module, so the same macro call fails depending on how the block is reached")
-			} else {
-				r.ok("R12.12", ssaName(fn), construct, w.posOf(ret.Pos()), "every path binds the alias", true)
-			}
-		})
+		visit(fn, 0)
+		construct := "the alias is bound with SetVariable"
+		if found != "" {
+			r.ok("R12.12", ssaName(fn), construct, w.posOf(fn.Pos()), "SetVariable(alias, …) at "+found, true)
+		} else {
+			r.bad("R12.12", ssaName(fn), construct, w.posOf(fn.Pos()), "nothing in the import's code binds the alias as a variable: contexts derived from the variables — parent(), child contexts of blocks — do not see the module, so the same macro call fails depending on how the block is reached")
+		}
 	}
-	r.floor("successful returns of ImportNode.Render", n, 1)
+	r.floor("ImportNode.Render methods", n, 1)
 }
